@@ -236,7 +236,7 @@ WITNESSES = [
     ('fill', 1, 2, 'CASE w3 fill_var_rec rec safe=0 hcoll=0 aggr=0 indep=0 nr=2 tmo=12 | V 3 | E notrec'),
     ('meta-rename', 2, 2, 'CASE w4 rename_var rec safe=0 hcoll=1 aggr=0 indep=0 nr=0 tmo=12 | - | E badname'),
     ('meta-enddef', 2, 2, 'CASE w5 enddef_ rec safe=0 hcoll=1 aggr=0 indep=0 nr=2 tmo=12 | - | E einval'),
-    ('safe-fill', -1, 3, 'CASE w6 fill_var_rec rec safe=1 hcoll=0 aggr=0 indep=0 nr=2 tmo=12 | V 3 | E notfill | V 5'),
+    ('safe-fill', 5, 3, 'CASE w6 fill_var_rec rec safe=1 hcoll=0 aggr=0 indep=0 nr=2 tmo=12 | V 3 | E notfill | V 5'),
     ('F2-aggr', 0, 3, 'CASE w7 put_vars rec safe=0 hcoll=0 aggr=1 indep=0 nr=2 tmo=12 | V 3 | E stride | V 4'),
     ('F2-badvarid', 3, 2, 'CASE w8 put_vara rec safe=0 hcoll=0 aggr=0 indep=0 nr=2 tmo=12 | E notvar | V 3'),
     # vardGuard (index 4) is not about matching: under NC_HCOLL a zero-length vard whose filetype reaches record 0 makes
@@ -319,7 +319,7 @@ def lean_model(drv, lines, rp, lays):
     return out
 
 
-def trigger_sig(case, model=None, rps='00000'):
+def trigger_sig(case, model=None, rps='000000'):
     api = case['api']
     if api.startswith('put_') and model is not None and rps[0] == '1':
         # the proposed F2 repair is in the tree: what is left are the ranks whose variable ID is unusable
@@ -337,7 +337,7 @@ def trigger_sig(case, model=None, rps='00000'):
     return 'unmatched-collectives:%s' % api
 
 
-def judge(case, model, obs, V, stats, rps='00000'):
+def judge(case, model, obs, V, stats, rps='000000'):
     """compare one case; returns (tie_diff or None).  Property failures go to V.failing_input."""
     n = case['n']
     cid = case['id']
@@ -472,7 +472,7 @@ def run_check(tier, seed):
         cases = gen_cases(rng, tier, ns)
         lays = {}
         # which cases may leave the common sequence (judged with the unrepaired model: a superset for any tree)
-        model1 = lean_model(drv, [c['line'] for c in cases], '00000', lays)
+        model1 = lean_model(drv, [c['line'] for c in cases], '000000', lays)
         risky, calm = [], []
         for c in cases:
             m = model1.get(c['id'])
@@ -516,7 +516,7 @@ def run_check(tier, seed):
             obs.update(res)
         wres = {k: f.result() for k, f in wf.items()}
         pool.shutdown()
-        rp = [None, None, None, None, None]
+        rp = [None, None, None, None, None, None]
         for name, idx, n, line in WITNESSES:
             if idx < 0:
                 continue
@@ -525,12 +525,14 @@ def run_check(tier, seed):
             clean = bool(o) and len(o['R']) == n and not o['H'] and len(set(tuple(o['R'][r][1]) for r in o['R'])) == 1
             if idx == 4:
                 clean = clean and o['R'][0][1] == ['setView', 'writeAll', 'allreduce']
+            if idx == 5:      # safeMinCode: the three ranks of the safe-mode fill_var_rec witness return one code
+                clean = clean and len(set(o['R'][r][0] for r in o['R'])) == 1
             if rp[idx] is None:
                 rp[idx] = clean
             elif rp[idx] != clean:
                 rp[idx] = False     # repaired at one site only: treat as unrepaired, the differing site shows up as a tie difference
         rps = ''.join('1' if x else '0' for x in rp)
-        log('[S4] repairs present in this tree (zeroPathNumrecs, fillVarRecErr, metaErrJoins, zeroPathBadVarid, vardGuard) = %s' % rps)
+        log('[S4] repairs present in this tree (zeroPathNumrecs, fillVarRecErr, metaErrJoins, zeroPathBadVarid, vardGuard, safeMinCode) = %s' % rps)
         for cid, o in obs.items():
             if o.get('L'):
                 lays[cid] = o['L']
